@@ -1,5 +1,6 @@
 import SimilarVerif.Lemmas.Udiff
 import SimilarVerif.Lemmas.Compact
+import SimilarVerif.Lemmas.UdiffParse
 /-!
 # C05 — rendered unified diffs are well-formed and apply exactly
 
@@ -9,8 +10,12 @@ The renderer reads hunk positions from the first and last op of each group, so t
 ops that carry exact positions (`Exact 0 0 ops`, C11).  The unchanged code violates C11 at one site
 (known finding `KF-compact-swap`), and that is exactly how C05 fails on the unchanged tree
 (`KF-compact-swap-udiff`): the theorems below are the property under `Exact`, i.e. for the repaired
-swap; `unified_needs_exact` shows the hypothesis cannot be dropped.  Byte-level parsing of the
-rendered text is not formalised (the harness validator parses and applies the real output strictly).
+swap; `unified_needs_exact` shows the hypothesis cannot be dropped.  Byte level: a strict parser of the
+unified format (Spec/UdiffParse.lean: header lines, `@@ -a,b +c,d @@` with the one-number and `,0` forms,
+bodies read by the header's counts, `\ No newline at end of file` markers, `\n` / `\r\n` / lone `\r`
+terminators) is proved to read back exactly the structured hunks from the printed bytes
+(`parse_of_rendered`), so "well-formed and applies exactly" is a theorem about the TEXT; the harness
+validator parses and applies the real output of the implementation in the same strict way.
 -/
 namespace SimilarVerif.C05
 open SimilarVerif Spec UdiffP
@@ -84,5 +89,23 @@ theorem unified_needs_exact :
       NoReplaceOp ops ∧ Walk (eqB E) o n ops o' n' ∧ Exact o n ops ∧
       cleanupDiffOps E false ops w = .ok (ops', w') ∧ ¬ Exact o n ops' :=
   CompactP.cleanup_exact_shipped_counterexample
+
+/-- **The printed text parses back to the hunks and patches old into new** (byte level, `to_writer` path with
+missing-newline hints, the configuration whose text is unambiguous): for line tokens (`IsLine`: what
+`tokenize_lines` produces, `lines_are_lines`) and header names without a line feed, the rendered bytes are read
+by the strict parser as exactly the file header and the structured hunks, every header's counts equal its
+body's, and applying the parsed hunks to `old` gives `new`.
+Needed and recorded: names containing `\n` (the API accepts any string) or "lines" with inner line breaks
+(possible only through `from_slices`) are not read back. -/
+theorem parse_of_rendered : type_of% @UdiffParseP.parse_renderUnified := @UdiffParseP.parse_renderUnified
+
+/-- the parser inverts the printer on arbitrary well-formed hunk lists, not only on rendered diffs -/
+theorem parse_of_printed_hunks : type_of% @UdiffParseP.parse_render := @UdiffParseP.parse_render
+
+/-- the tokens of `tokenize_lines` satisfy the line hypothesis of `parse_of_rendered` -/
+theorem lines_are_lines : type_of% @UdiffParseP.isLine_tokens := @UdiffParseP.isLine_tokens
+
+/-- `@@` header round trip: all three range forms -/
+theorem hunk_header_roundtrip : type_of% @UdiffParseP.parseHunkHeader_render := @UdiffParseP.parseHunkHeader_render
 
 end SimilarVerif.C05
